@@ -134,6 +134,12 @@ def run_case(case):
                                    default_combos={"a": A, "b": Bv})
         # pre-existing conflicting data
         if failure == "conflict" and not mem_only:
+            if case.get("warm"):
+                # the reaping harvester has been used before (it has written
+                # and read its file); the conflicting data is stored
+                # afterwards, by somebody else
+                farmer.harvest_combos({"a": [A[-1] + 20], "b": Bv},
+                                      verbosity=0)
             spec_old = dict(spec, epoch=1)
             r_old = x.Runner(labelled.make_fn(spec_old), names, **good)
             x.Harvester(r_old, data_name=data_name).harvest_combos(
@@ -497,7 +503,8 @@ def enumerate_cases(tier, seed):
                                     "pre_order": rng.choice(
                                         [None, "desc", "mixed"]),
                                     "tiny": rng.random() < 0.4,
-                                    "redo": rng.random() < 0.6}
+                                    "redo": rng.random() < 0.6,
+                                    "warm": rng.random() < 0.5}
                             bt = rng.choice(["default", "batchsize",
                                              "num_batches"])
                             tot = case["n"] if farmer == "sampler" else N
